@@ -82,6 +82,7 @@ fn source(image: &Rc<Vec<u8>>, rcfg: &ReadCfg) -> SimSource {
         None => SimSource::new(image.clone(), &rcfg.sched, rcfg.budget),
     };
     s.error_at_read = rcfg.error_at_read;
+    s.replay = rcfg.replay;
     s
 }
 
